@@ -13,6 +13,7 @@ import (
 	"io"
 	"os"
 	"path"
+	"runtime/debug"
 	"strings"
 
 	"github.com/goplus/mod/modfile"
@@ -130,6 +131,8 @@ type Result struct {
 	ParseErr string   // parser error (first), "" if none
 	NoPkg    bool     // the parser produced no package
 	Panic    string   // a panic escaped NewPackage / WriteTo ("" if none)
+	Stack    string   // its stack
+	Bodiless bool     // an XGo file declares a func without body
 	Errs     []string // error list of NewPackage (each Error() string)
 	ErrPos   []string // position part "file:line:col" of each error that carries one ("" otherwise)
 	Go       string   // WriteTo output when NewPackage returned err == nil
@@ -146,6 +149,28 @@ type Options struct {
 	Outline    bool
 	Recorder   cl.Recorder
 	PkgPath    string
+	// SkipBodiless: do not call WriteTo when an XGo file declares a func without body
+	SkipBodiless bool
+	partial      bool
+}
+
+// HasBodilessFunc reports whether an XGo file of the package declares a func without body.
+func HasBodilessFunc(pkg *ast.Package) bool {
+	for _, f := range pkg.Files {
+		for _, d := range f.Decls {
+			if fd, ok := d.(*ast.FuncDecl); ok && fd.Body == nil {
+				return true
+			}
+		}
+	}
+	return false
+}
+
+// CompilePartial is Compile, but a parse error does not stop it: the partial ASTs the parser
+// returned are compiled (C07: "every partial AST it returns").
+func CompilePartial(exp Exports, files []File, o Options) (r Result) {
+	o.partial = true
+	return Compile(exp, files, o)
 }
 
 // Compile parses and compiles files in the given presentation order.
@@ -165,12 +190,15 @@ func Compile(exp Exports, files []File, o Options) (r Result) {
 	defer func() {
 		if e := recover(); e != nil {
 			r.Panic = fmt.Sprint(e)
+			r.Stack = string(debug.Stack())
 		}
 	}()
 	pkgs, err := parser.ParseFSDir(fset, fs, dir, parser.Config{ClassKind: ClassKind, Mode: parser.ParseComments})
 	if err != nil {
 		r.ParseErr = err.Error()
-		return
+		if !o.partial || pkgs == nil {
+			return
+		}
 	}
 	name := o.PkgName
 	if name == "" {
@@ -195,6 +223,16 @@ func Compile(exp Exports, files []File, o Options) (r Result) {
 	out, err := cl.NewPackage(o.PkgPath, pkg, conf)
 	if err != nil {
 		r.Errs, r.ErrPos = ErrList(err)
+		return
+	}
+	r.Bodiless = HasBodilessFunc(pkg)
+	if o.SkipBodiless && r.Bodiless {
+		// known finding bodiless-func-writeto: WriteTo panics on a func declared without body
+		return
+	}
+	if o.partial && r.ParseErr != "" {
+		// the package comes from a partial AST: compiling it is what C07 is about; gogen's WriteTo
+		// is not exercised on it (it is known to hit nil nodes there)
 		return
 	}
 	var b bytes.Buffer
